@@ -16,6 +16,8 @@ Operations (`C17.<op>\t<arg>…`):
   assign <dst> <src>    → `<assignable> <noHole> <hole classes: - | F9 | F10 | F9,F10> <pureNarrow>`
   (values sent to `case` are in last-wins normal form: the harness applies `dedupLast` at every object)
   info <type>           → `<fileKind> <canFilter> <wf> <arrayDim> <mapDim>`
+  caser <type> <json>   → as `case`, over numerals as Go reads them (Martian.TypesR)
+  num <json numeral>    → `<round64 neg:mant:exp2|inf> | <goInt?> | <finite64> | <exact64> | <exact int within int64>`
 -/
 namespace Driver.C17
 open Martian.Json Martian.Types Driver
@@ -130,6 +132,27 @@ def handle (op : String) (args : List String) : Option String :=
     let v ← jOf v
     let f := filter t v
     pure (" ".intercalate [showVerdict (check t v), showFErr f.2, showVerdict (check t f.1), showJ f.1])
+  | "caser", [t, v] => do
+    -- the same over numerals as Go reads them (float64 rounding): Martian.TypesR
+    let t ← tyOf t
+    let v ← jOf v
+    let f := Martian.TypesR.filter t v
+    pure (" ".intercalate [showVerdict (Martian.TypesR.check t v), showFErr f.2,
+      showVerdict (Martian.TypesR.check t f.1), showJ f.1])
+  | "num", [v] => do
+    -- `num` <json numeral>: `<round64> | <goInt?> | <finite64> | <exact64> | <exact intValue? within int64>`
+    let v ← jOf v
+    match v with
+    | .num n =>
+      let r := match n.toF64 with
+        | .inf => "inf"
+        | .fin neg m e => s!"{if neg then 1 else 0}:{m}:{e}"
+      let g := match n.goInt? with | some i => s!"some {i}" | none => "none"
+      let x := match n.intValue? with
+        | some i => if Num.inInt64 i then s!"some {i}" else "none"
+        | none => "none"
+      pure (" | ".intercalate [r, g, boolStr n.finite64, boolStr n.exact64, x])
+    | _ => none
   | "assign", [d, s] => do
     let d ← tyOf d
     let s ← tyOf s
